@@ -250,6 +250,7 @@ func runC20(res *lp.Result) {
 				f := frame.NewFrame(v, 1, m)
 				ask(fmt.Sprintf("c20 fnew %d %d", f.Header.Flags, f.Body.Message.GetOpCode()), showFrameC20(f))
 				var tr []string
+				askedForTracing := false // a request: what the last RequestTracingId call said
 				for _, s := range seq {
 					if s.n == "freq-on-response" {
 						if f.Body.TracingId == nil {
@@ -262,6 +263,15 @@ func runC20(res *lp.Result) {
 					trace := fmt.Sprintf("v=%d kind=%s ops=[%s]", v, kind, strings.Join(tr, "; "))
 					ask("c20 "+s.n+" "+s.a, showFrameC20(f))
 					checkInv(f, isResp, trace)
+					if !isResp {
+						if s.n == "freq" {
+							askedForTracing = s.a == "true"
+						}
+						// on a request the TRACING flag is the request for tracing: only RequestTracingId changes it
+						if f.Header.Flags.Contains(primitive.HeaderFlagTracing) != askedForTracing {
+							res.Add(lp.Finding{Kind: "violation", What: "mutator invariant broken: the tracing flag of a request does not say what RequestTracingId last asked for", Input: trace, Impl: showFrameC20(f)})
+						}
+					}
 				}
 				trace := fmt.Sprintf("v=%d kind=%s ops=[%s]", v, kind, strings.Join(tr, "; "))
 				roundTrip(f, trace)
